@@ -30,9 +30,9 @@ func verifyTuple(rng *gen.Rng, i int) sigTuple {
 		return t
 	case 2:
 		t := honestTuple(rng, false)
-		lo, _ := oracle.LowS(t.S, t.V)
+		lo, lv := oracle.LowS(t.S, t.V)
 		t.S = new(big.Int).Sub(bigN, lo) // the high representative
-		t.V = -1
+		t.V = lv ^ 1                      // negating s flips the parity bit of the id that recovers Q
 		t.Class = "high-s," + t.Class
 		return t
 	case 3:
@@ -120,14 +120,46 @@ func verifyTuple(rng *gen.Rng, i int) sigTuple {
 		t.Class = "digest-extended," + t.Class
 		return t
 	}
-	t := honestTuple(rng, false)
-	return t
+	// i%12 == 11: a valid signature with a tiny s (s + n still fits in 32
+	// bytes, so a reducing byte-level parser would accept the alias s + n):
+	// choose k and s, solve e = s*k - r*d.
+	d, dc := keyValue(rng)
+	for {
+		k := rng.Below(bigN)
+		if k.Sign() == 0 {
+			continue
+		}
+		R := oracle.MulG(k)
+		rr := oracle.Mod(R.X, bigN)
+		var sv *big.Int
+		switch rng.Intn(4) {
+		case 0:
+			sv = big.NewInt(int64(1 + rng.Intn(3)))
+		case 1:
+			sv = new(big.Int).Sub(new(big.Int).Sub(oracle.Two256, bigN), big.NewInt(int64(1+rng.Intn(3)))) // largest s with s+n < 2^256
+		default:
+			sv = rng.Below(new(big.Int).Sub(oracle.Two256, bigN))
+		}
+		if rr.Sign() == 0 || sv.Sign() == 0 {
+			continue
+		}
+		e := oracle.Mod(new(big.Int).Sub(oracle.MulM(sv, k, bigN), oracle.MulM(rr, d, bigN)), bigN)
+		dig := b32(e)
+		if alt := new(big.Int).Add(e, bigN); rng.Bool() && alt.Cmp(oracle.Two256) < 0 {
+			dig = b32(alt)
+		}
+		v := int(R.Y.Bit(0))
+		if R.X.Cmp(bigN) >= 0 {
+			v |= 2
+		}
+		return sigTuple{Q: oracle.MulG(d), D: d, Digest: dig, R: rr, S: sv, V: v, Class: "tiny-s," + dc}
+	}
 }
 
 func runC07(r *mon.Run) {
 	for _, c := range []string{"c07:accept", "c07:reject", "c07:class:high-s", "c07:class:chosen-R:x(R)>=n", "c07:class:chosen-R:x(R)<p-n", "c07:class:R=infinity",
 		"c07:class:e=0", "c07:class:rs-boundary-value", "c07:class:digest-extended", "c07:stage:range", "c07:stage:infinity", "c07:stage:x-compare",
-		"c07:stage:short-digest", "c07:stage:malleability", "c07:recoverable:accept", "c07:recoverable:wrong-id", "c07:btc:accept", "c07:btc:envelope-reject"} {
+		"c07:stage:short-digest", "c07:stage:malleability", "c07:recoverable:accept", "c07:recoverable:wrong-id", "c07:recoverable:malleability-reject", "c07:class:tiny-s", "c07:alias:s+n", "c07:alias:r+n", "c07:btc:accept", "c07:btc:envelope-reject"} {
 		r.Require(c)
 	}
 	if !hk.HaveSecec {
@@ -258,6 +290,49 @@ func runC07(r *mon.Run) {
 				sig := append(append([]byte{}, compact...), byte(id))
 				if g := pub.Verify(t.Digest, sig, opts); g != want {
 					fail("Verify/Recoverable", fmt.Sprintf("Verify(recoverable, id=%d)", id), g, want)
+				}
+				// the malleability option applies to every encoding
+				if want && !lowS {
+					w.Class("c07:recoverable:malleability-reject")
+				}
+				if g := pub.Verify(t.Digest, sig, &secec.ECDSAOptions{Encoding: secec.EncodingCompactRecoverable, RejectMalleable: true}); g != (want && lowS) {
+					fail("Verify/Recoverable+RejectMalleable", fmt.Sprintf("Verify(recoverable, id=%d, rejectMalleable=true)", id), g, want && lowS)
+				}
+			}
+		}
+		// non-canonical aliases r+n / s+n of a VALID signature (they fit in 32
+		// bytes only for components below 2^256-n): every byte-level entry point
+		// must reject them - a parser that reduces instead of rejecting accepts.
+		if core && inRange && len(t.Digest) == 32 {
+			for ci, comp := range []*big.Int{t.R, t.S} {
+				al := new(big.Int).Add(comp, bigN)
+				if al.Cmp(oracle.Two256) >= 0 {
+					continue
+				}
+				name := []string{"r+n", "s+n"}[ci]
+				w.Class("c07:alias:" + name)
+				ar, as := t.R, t.S
+				if ci == 0 {
+					ar = al
+				} else {
+					as = al
+				}
+				ac := append(b32(ar), b32(as)...)
+				for _, rm := range []bool{false, true} {
+					if g := pub.Verify(t.Digest, ac, &secec.ECDSAOptions{Encoding: secec.EncodingCompact, RejectMalleable: rm}); g {
+						fail("Verify/Compact/alias-"+name, fmt.Sprintf("Verify(compact with %s in place of the component, rejectMalleable=%v)", name, rm), g, false)
+					}
+					if g := pub.Verify(t.Digest, oracle.DERWriteSig(ar, as), &secec.ECDSAOptions{Encoding: secec.EncodingASN1, RejectMalleable: rm}); g {
+						fail("Verify/ASN1/alias-"+name, fmt.Sprintf("Verify(ASN.1 with %s in place of the component, rejectMalleable=%v)", name, rm), g, false)
+					}
+				}
+				for id := 0; id < 4; id++ {
+					if g := pub.Verify(t.Digest, append(append([]byte{}, ac...), byte(id)), &secec.ECDSAOptions{Encoding: secec.EncodingCompactRecoverable}); g {
+						fail("Verify/Recoverable/alias-"+name, fmt.Sprintf("Verify(recoverable with %s in place of the component, id=%d)", name, id), g, false)
+					}
+				}
+				if g := bitcoin.VerifyASN1(pub, t.Digest, append(oracle.DERWriteSig(ar, as), 0x01)); g {
+					fail("bitcoin.VerifyASN1/alias-"+name, "bitcoin.VerifyASN1 with "+name+" in place of the component", g, false)
 				}
 			}
 		}
